@@ -1,0 +1,15 @@
+//go:build verif
+
+package native
+
+// Contracts for the verif build tag (comment-only; see /verif/DESIGN.md).
+
+//@ import transaction github.com/nspcc-dev/neo-go/pkg/core/transaction
+
+// Attribute base fee as read from the Policy contract: a pure read of contract storage
+// (uninterpreted), bounded by the maximum the Policy contract accepts.
+//@ spec attrBaseFee(p IPolicy, t transaction.AttrType) int
+//@ iface IPolicy.GetAttributeFeeInternal
+//@ assumed
+//@ pure
+//@ ensures result == attrBaseFee(recv, arg1) && 0 <= result && result <= 1000000000
